@@ -72,7 +72,7 @@ MAP = [
     (G, 'CFGrid1D._make_polygons', ['Ems.cf1dPolys', 'Ems.rect', 'Ems.Gen.cf1dPolygonPoints'], ['C02', 'C06']),
     (G, 'CFGrid1D.face_centres', ['Ems.cf1dCentres', 'Ems.Gen.cf1dFaceCentres'], ['C02', 'C06']),
     (G, 'CFGrid1D.geometry', ['Ems.cf1dGeometryBox', 'Ems.contiguous'], ['C06']),
-    (G, 'CFGrid2DTopology._get_or_make_bounds', ['Ems.derived2d', 'Ems.storedCorners', 'Ems.nanmean'], ['C06']),
+    (G, 'CFGrid2DTopology._get_or_make_bounds', ['Ems.derived2d', 'Ems.storedCorners', 'Ems.nanmean', 'Ems.Gen.cf2dDerivedBounds'], ['C06']),
     (G, 'CFGrid2D._make_polygons', ['Ems.cf2dPolys', 'Ems.Gen.cf2dPolygonPoints'], ['C02', 'C06']),
     (G, 'CFGrid2D.face_centres', ['Ems.gridCentres'], ['C02']),
     (G, 'CFGrid.bounds', ['Ems.polysBounds', 'Ems.bbox'], ['C06']),
@@ -93,9 +93,9 @@ MAP = [
     (PE, 'extract_points', ['Ems.extractPoints'], ['C05', 'C20']),
     (PE, 'extract_dataframe', ['Ems.extractPoints', 'Ems.fillRows'], ['C05', 'C20']),
     # ---- clip masks (C07)
-    (M, 'blur_mask', ['Ems.Mask.blur'], ['C07']),
-    (M, 'smear_mask', ['Ems.Mask.smear'], ['C07']),
-    (A, 'c_mask_from_centres', ['Ems.cMaskFromCentres'], ['C07']),
+    (M, 'blur_mask', ['Ems.Mask.blur', 'Ems.Gen.blurMask'], ['C07']),
+    (M, 'smear_mask', ['Ems.Mask.smear', 'Ems.Gen.cMaskLeft', 'Ems.Gen.cMaskBack', 'Ems.Gen.cMaskNode'], ['C07']),
+    (A, 'c_mask_from_centres', ['Ems.cMaskFromCentres', 'Ems.Gen.cMaskLeft', 'Ems.Gen.cMaskBack', 'Ems.Gen.cMaskNode'], ['C07']),
     (G, 'CFGrid.make_clip_mask', ['Ems.gridClipMask'], ['C07']),
     (A, 'ArakawaC.make_clip_mask', ['Ems.arakawaClipMask'], ['C07']),
     (U, 'buffer_faces', ['Ems.bufferFaces', 'Ems.bufferIter'], ['C07']),
